@@ -219,12 +219,14 @@ def main(argv):
                         os.remove(rp)
                         verdict = st
                 if verdict != "violation":
-                    if info.get("oracle"):
-                        undecided.append(f"kani/{h}: obligation failed ({failed_txt}) but the counterexample does not replay on the real code "
-                                         f"(replay: {verdict}); it relies on an oracle answer the real dependency may never give")
-                    else:
-                        rp = write_replay(prop, h, f"failed obligation: kani/{h}\nfailed checks: {failed_txt}\nno concrete counterexample could be replayed ({verdict})\n\n" + r["raw"][-4000:])
-                        violations.append({"obligation": f"kani/{h}", "replay": rp, "note": "no-failing-input-found"})
+                    # the obligation was discharged on the unchanged tree and is refuted now, but no input replays on the real
+                    # code (for harnesses marked `oracle`: the counterexample may use an answer of a stubbed dependency --
+                    # orientation, intersection -- that is allowed by its contract but that the real dependency does not give
+                    # on these coordinates; the function is verified against the callee's contract, not its body)
+                    note = ("the harness replaces dependencies by contract stubs (oracle); the counterexample found by CBMC is valid against "
+                            "those contracts but did not reproduce with the real dependencies\n" if info.get("oracle") else "")
+                    rp = write_replay(prop, h, f"failed obligation: kani/{h}\nfailed checks: {failed_txt}\n{note}no concrete counterexample could be replayed ({verdict})\n\n" + r["raw"][-4000:])
+                    violations.append({"obligation": f"kani/{h}", "replay": rp, "note": "no-failing-input-found"})
 
         # ---- native bounded stand-ins (exhaustive execution of the real code up to a stated bound; never counted as proof)
         for nb in plan.get("native", []):
